@@ -110,6 +110,8 @@ pub struct Sys {
     server_panicked: bool,
     n_server_channels: usize,
     n_client_channels: usize,
+    /// lengths of the mutate messages sent to client 0 in the last server frame
+    last_mutate_lens: Vec<usize>,
 }
 
 fn auth_method(cfg: &Cfg) -> AuthMethod {
@@ -187,6 +189,7 @@ impl Sys {
             server_panicked: false,
             n_server_channels: ns,
             n_client_channels: nc,
+            last_mutate_lens: Vec::new(),
         }
     }
 
@@ -545,9 +548,13 @@ impl Sys {
             .drain_sent()
             .map(|(e, ch, b)| (e, ch, b.to_vec()))
             .collect();
+        self.last_mutate_lens.clear();
         for (e, ch, b) in sent {
             match self.clients.iter().position(|c| c.server_side == Some(e)) {
                 Some(c) => {
+                    if c == 0 && ch == 1 {
+                        self.last_mutate_lens.push(b.len());
+                    }
                     writeln!(out, "= sent c={c} ch={ch} hex={}", hex(&b)).unwrap();
                     self.clients[c].s2c[ch].push_back(b);
                 }
@@ -684,6 +691,8 @@ struct Gen {
     rng: Rng,
     sys: Sys,
     buf: Vec<u8>,
+    /// `mut` lines issued since the last tick (to repeat them against an exactly fitting size)
+    window_muts: Vec<String>,
     next_ent: usize,
     next_pre: Vec<usize>,
     val: u32,
@@ -710,7 +719,7 @@ pub fn generate(opts: &Opts, profile: &str, out: &mut Out) {
         };
         writeln!(out, "{}", cfg.header(id)).unwrap();
         let nclients = cfg.clients;
-        let mut g = Gen { rng: crng, sys: Sys::new(cfg), buf: Vec::new(), next_ent: 0, next_pre: vec![0; nclients], val: 1 };
+        let mut g = Gen { rng: crng, sys: Sys::new(cfg), buf: Vec::new(), window_muts: Vec::new(), next_ent: 0, next_pre: vec![0; nclients], val: 1 };
         g.run(profile);
         out.write_all(&g.buf).unwrap();
         writeln!(out, "end").unwrap();
@@ -780,7 +789,10 @@ impl Gen {
             0..=13 => self.spawn(profile),
             14..=43 => {
                 let k = self.comp_letter(profile);
-                if let Some(v) = self.comp_val(k, profile) { self.step(format!("mut {e} {k}={v}")); }
+                if let Some(v) = self.comp_val(k, profile) {
+                    self.window_muts.push(format!("mut {e} {k}={v}"));
+                    self.step(format!("mut {e} {k}={v}"));
+                }
             }
             44..=58 => {
                 let k = self.comp_letter(profile);
@@ -870,6 +882,21 @@ impl Gen {
                 45..=64 => {
                     let tick = self.rng.chance(2, 3) as u8;
                     self.step(format!("sframe tick={tick}"));
+                    if tick == 1 {
+                        let muts = std::mem::take(&mut self.window_muts);
+                        let lens = self.sys.last_mutate_lens.clone();
+                        if profile == "sys_split" && !lens.is_empty() && !muts.is_empty() && self.rng.chance(1, 2) {
+                            // repeat the same mutations against a max size that fits exactly / off by one
+                            let hdr = 4 + self.sys.cfg.track as usize;
+                            let total: usize = hdr + lens.iter().map(|l| l.saturating_sub(hdr)).sum::<usize>();
+                            let biggest = *lens.iter().max().unwrap();
+                            let base = *self.rng.pick(&[total, total, biggest, total + 9, biggest + 9]);
+                            let m = (base as i64 + *self.rng.pick(&[-1i64, 0, 0, 1])).max(1);
+                            self.step(format!("maxsize 0 {m}"));
+                            for l in &muts { self.step(l.clone()); }
+                            self.step("sframe tick=1".into());
+                        }
+                    }
                     self.network(mood);
                 }
                 65..=84 => {
